@@ -366,7 +366,29 @@ def _est_call(case, conc, lists, rng, weighted):
         al = {a["v"]: a["cells"] for a in case["alpha"]}
         ps = {c["v"]: c["ps"] for c in case["cpds"]}
         kw["pseudo_counts"] = {conc.vn[v]: table_2d(conc, v, sorted(ps[v], key=lambda p: conc.vn[p]), lists, al[v]) for v in al}
+        if rng.random() < 0.5:          # the prior as a caller-owned float array (must not be written to)
+            import numpy as np
+            kw["pseudo_counts"] = {k: np.array(t, dtype=float) for k, t in kw["pseudo_counts"].items()}
     return "bayes", kw
+
+
+def _freeze(kw):
+    import copy
+    return copy.deepcopy({k: v for k, v in kw.items()})
+
+
+def _same_args(a, b):
+    import numpy as np
+    if set(a) != set(b):
+        return False
+    for k in a:
+        x, y = a[k], b[k]
+        if isinstance(x, dict):
+            if set(x) != set(y) or any(not np.array_equal(np.asarray(x[q]), np.asarray(y[q])) for q in x):
+                return False
+        elif not np.array_equal(np.asarray(x), np.asarray(y)):
+            return False
+    return True
 
 
 def _classes():
@@ -546,8 +568,14 @@ def replay_one(case, inst, seed, hs, p_nj2=0.0, stub=None):
         e = K[est](bn, df, **snkw)
         if how == "get_parameters":
             api = API_NAMES[("get_parameters", est)]
+            kw0 = _freeze(kw)
             res = e.get_parameters(n_jobs=n_jobs, **kw)
             ncalls[0] += 1
+            if not _same_args(kw, kw0):
+                return ncalls[0], [viol(api, "argument_changed", None, None)]
+            if rng.random() < 0.3:          # the same call again (same estimator object, same prior objects): same estimates
+                res = e.get_parameters(n_jobs=n_jobs, **kw)
+                ncalls[0] += 1
             got = {c.variable: c for c in res}
             if len(res) != len(got):
                 return ncalls[0], [viol(api, "duplicate_cpds", [str(c.variable) for c in res], len(cols))]
@@ -564,7 +592,13 @@ def replay_one(case, inst, seed, hs, p_nj2=0.0, stub=None):
             if isinstance(k2.get("equivalent_sample_size"), dict):
                 k2["equivalent_sample_size"] = k2["equivalent_sample_size"][conc.vn[v]]
             try:
+                k0 = _freeze(k2)
                 got[conc.vn[v]] = e.estimate_cpd(conc.vn[v], **k2)
+                if not _same_args(k2, k0):
+                    return ncalls[0] + 1, [viol(api, "argument_changed", str(v), None)]
+                if rng.random() < 0.4:      # asked twice with the same (caller-owned) prior object: the second answer counts
+                    got[conc.vn[v]] = e.estimate_cpd(conc.vn[v], **k2)
+                    ncalls[0] += 1
             except Exception as ex:  # noqa
                 if os.environ.get("C06_DEBUG"):
                     raise
